@@ -257,7 +257,16 @@ Definition rewrite_toc (m : afile) (base : nat) : afile :=
            (f_wal m) (f_seq m) IxBad (f_lex m) (match f_vec m with IxNone => IxNone | _ => IxBad end) 0
            (firstn base (f_rows m) ++ map (fun r : row => if fst r =? 0 then (0, 1) else r) (skipn base (f_rows m))).
 
+(* HealHeaderPointer since fix f76b325: the pointer is only moved FORWARD; a planned target that lies at
+   or behind the handle's own pointer is skipped (the plan was made before the open, which repairs the
+   pointer itself and may have moved the TOC forward by replaying the log) *)
 Definition heal_ptr (m : afile) (target : option N) : afile :=
+  match target with
+  | Some t => if f_ptr m <? t then with_hdr m t (f_S m) else m
+  | None => m
+  end.
+(* the action before the fix (`!=` instead of `<`): kept for the historical lemma about F-C21-1 *)
+Definition heal_ptr_unfixed (m : afile) (target : option N) : afile :=
   match target with
   | Some t => if f_ptr m =? t then m else with_hdr m t (f_S m)
   | None => m
@@ -319,22 +328,23 @@ Definition open_for_doctor (pl : plan_t) (f : afile) : (afile * list N) + (afile
     end.
 
 (* the phases in plan order; `base` = number of rows before the open (rows beyond it were written by the replay) *)
-Definition run_phases (pl : plan_t) (base : nat) (m0 : afile) : afile :=
-  let m1 := heal_ck (heal_ptr m0 (pl_heal_ptr pl)) (pl_heal_ck pl) in
+Definition run_phases_gen (hp : afile -> option N -> afile) (pl : plan_t) (base : nat) (m0 : afile) : afile :=
+  let m1 := heal_ck (hp m0 (pl_heal_ptr pl)) (pl_heal_ck pl) in
   (* WalReplay: recover_wal finds nothing left (try_open replayed) *)
   let m2 := if pl_vacuum pl then vacuum m1 base else m1 in
   let m3 := rebuild m2 (pl_time pl) (pl_lex pl) (pl_vec pl) base in
   let m4 := if pl_finalize pl then rewrite_toc m3 base else m3 in
   reset_wal m4.
+Definition run_phases := run_phases_gen heal_ptr.
 
-Definition doctor (o : opts) (f : afile) : afile * report :=
+Definition doctor_gen (hp : afile -> option N -> afile) (o : opts) (f : afile) : afile * report :=
   let pl := compute o f in
   if o_dry o then (f, mkReport (if is_noop pl then 0 else 4) (pl_findings pl) (plan_phases pl) None)
   else
     match open_for_doctor pl f with
     | inr (f', extra) => (f', mkReport 3 (pl_findings pl ++ extra) (plan_phases pl) None)
     | inl (m0, extra) =>
-        let m5 := run_phases pl (length (f_rows f)) m0 in
+        let m5 := run_phases_gen hp pl (length (f_rows f)) m0 in
         match verify m5 with
         | Ok true => (m5, mkReport (if is_noop pl then 0 else 1) (pl_findings pl ++ extra) (plan_phases pl) (Some true))
         | Ok false =>
@@ -343,6 +353,9 @@ Definition doctor (o : opts) (f : afile) : afile * report :=
         | _ => (m5, mkReport 9 (pl_findings pl ++ extra) (plan_phases pl) None)
         end
     end.
+Definition doctor := doctor_gen heal_ptr.
+(* doctor as it was before fix f76b325 *)
+Definition doctor_unfixed := doctor_gen heal_ptr_unfixed.
 
 (* ---------- what the property talks about ---------- *)
 (* the frames a user is entitled to: committed rows with the acknowledged pending records applied *)
@@ -364,14 +377,14 @@ Fixpoint preserves (want have : list row) : bool :=
 
 Definition forces (o : opts) : bool := o_time o || o_lex o || o_vec o || o_vac o.
 
-(* F-C21-1: the header pointer is damaged and pending records insert frames: the plan's pointer target is
-   stale after the replay and Finalize writes the TOC over the new payloads.
+(* F-C21-1 (repaired by f76b325, historical): the header pointer is damaged and pending records insert
+   frames: the plan's pointer target was stale after the replay and Finalize wrote the TOC over the new payloads.
    F-C21-2: the checksum stored inside the TOC is damaged and nothing is pending: open never re-stamps it. *)
-Definition known_stale_ptr (f : afile) : bool :=
+Definition stale_ptr_class (f : afile) : bool :=
   negb (f_ptr f =? f_toc f)
   && match f_wal f with WPending ps => existsb is_insert ps | _ => false end.
 Definition known_toc_cksum (f : afile) : bool :=
   negb (f_S f =? f_C f)
   && match f_wal f with WPending ps => negb (nonempty ps) | _ => true end.
 Definition known_class (o : opts) (f : afile) : bool :=
-  negb (o_dry o) && (known_stale_ptr f || known_toc_cksum f).
+  negb (o_dry o) && known_toc_cksum f.
